@@ -71,7 +71,9 @@ fn generate(seed: u64, tier: Tier) -> Value {
         op["delay_ms"] = json!(delay);
         ops.push(op);
     }
-    json!({"property": "C12", "seed": seed, "peers": peers, "tasks": tasks, "ops": ops})
+    // one run in three keeps the store's own periodic sync task running for the whole history
+    let bg = if r.chance(1, 3) { *r.pick(&[20u64, 200, 1500]) } else { 0 };
+    json!({"property": "C12", "seed": seed, "peers": peers, "tasks": tasks, "ops": ops, "bg_sync_ms": bg})
 }
 
 fn shrink(sc: &Value) -> Vec<Value> {
@@ -122,6 +124,8 @@ struct World {
     dir: std::path::PathBuf,
     reloads: RefCell<u64>,
     old_file: RefCell<Option<Vec<u8>>>,
+    /// period of the store's own background sync task (0 = not running; reloads then start one for a single tick)
+    bg_sync_ms: u64,
 }
 
 /// Judge one submission. `predicted_accept` was computed from the model at invocation.
@@ -319,7 +323,16 @@ async fn do_reload(w: &World, op: &Value, idx: usize, peers: u64) {
     let path = w.dir.join("counters.bin");
     let snapshot: Model = w.model.borrow().clone(); // what the sync persists (no await before the read lock is taken in the sync task's first poll… see below)
     let mut sys = w.sys.borrow_mut().take().expect("sys");
-    let synced = wait_sync(&mut sys).await;
+    let synced = if w.bg_sync_ms > 0 {
+        // The periodic task has been running all along. Submitters are held off by the gate, so after two
+        // full periods everything accepted so far has had a sync tick of its own: it must be in the file.
+        tokio::time::sleep(Duration::from_millis(2 * w.bg_sync_ms + 5)).await;
+        sys.stop_sync_task().await;
+        w.ctx.borrow_mut().probe("reload_after_periodic_sync");
+        true
+    } else {
+        wait_sync(&mut sys).await
+    };
     // other tasks may have been accepted while we waited; what was persisted is between
     // `snapshot` and the model now. The reload oracle only uses lower bounds from `snapshot`.
     if !synced {
@@ -374,7 +387,13 @@ async fn do_reload(w: &World, op: &Value, idx: usize, peers: u64) {
     *w.reloads.borrow_mut() = n;
     // ---- continue on the reloaded store; acceptances after the sync are lost by definition
     drop(sys);
-    match MonotonicCounterSystem::new(path.clone()).await {
+    let reopened = if w.bg_sync_ms > 0 {
+        match MonotonicCounterSystem::new_with_sync_interval(path.clone(), Duration::from_millis(w.bg_sync_ms)).await {
+            Ok(mut s2) => { let _ = s2.start_sync_task().await; Ok(s2) }
+            Err(e) => Err(e),
+        }
+    } else { MonotonicCounterSystem::new(path.clone()).await };
+    match reopened {
         Ok(s2) => {
             // re-anchor the model on what the file holds (read through the public accessor)
             let mut m = w.model.borrow_mut();
@@ -382,7 +401,7 @@ async fn do_reload(w: &World, op: &Value, idx: usize, peers: u64) {
                 let l = s2.get_peer_counter(&uid(peer)).await.map(|c| c.last_valid_sequence).unwrap_or(0);
                 let snap = snapshot.last.get(&peer).copied().unwrap_or(0);
                 if l < snap {
-                    w.ctx.borrow_mut().violate("C12.reload.lost_persisted", "", format!("peer {peer}: reloaded last {l} < {snap} accepted before the sync started"));
+                    w.ctx.borrow_mut().violate("C12.reload.lost_persisted", if w.bg_sync_ms > 0 { "periodic_sync" } else { "" }, format!("peer {peer}: reloaded last {l} < {snap} accepted before the sync {}", if w.bg_sync_ms > 0 { "task had two full periods to write it" } else { "started" }));
                 }
                 m.last.insert(peer, l);
             }
@@ -427,10 +446,15 @@ fn execute(sc: &Value) -> RunReport {
         dir: scratch.path.clone(),
         reloads: RefCell::new(0),
         old_file: RefCell::new(None),
+        bg_sync_ms: sc["bg_sync_ms"].as_u64().unwrap_or(0),
     });
     let w = world.clone();
     local.block_on(&rt, async move {
-        let sys = MonotonicCounterSystem::new(w.dir.join("counters.bin")).await.expect("new");
+        let sys = if w.bg_sync_ms > 0 {
+            let mut s = MonotonicCounterSystem::new_with_sync_interval(w.dir.join("counters.bin"), Duration::from_millis(w.bg_sync_ms)).await.expect("new");
+            s.start_sync_task().await.expect("sync task");
+            s
+        } else { MonotonicCounterSystem::new(w.dir.join("counters.bin")).await.expect("new") };
         *w.sys.borrow_mut() = Some(sys);
         for p in 0..peers {
             let t = MonotonicCounterSystem::new(w.dir.join(format!("twin-{p}.bin"))).await.expect("twin");
@@ -497,7 +521,7 @@ fn execute(sc: &Value) -> RunReport {
     let acc = ctx.probes.get("accepted").copied().unwrap_or(0);
     let rej = ctx.probes.get("rejected").copied().unwrap_or(0);
     ctx.nontrivial = acc > 0 && rej > 0;
-    for k in ["accepted", "rejected", "reload", "crash_image", "crash_image_loaded"] {
+    for k in ["accepted", "rejected", "reload", "reload_after_periodic_sync", "crash_image", "crash_image_loaded"] {
         ctx.probes.entry(k.to_string()).or_insert(0);
     }
     drop(scratch);
